@@ -2,7 +2,7 @@
    eval  = environment-passing big-step semantics (coq/C01/Spec.v), eval_spec := eval cart  (the FEEL semantics);
    run   = the evaluator as a scope-stack machine (coq/C01/Impl.v),   run_impl  := run cart_impl (the code as it is). *)
 From Coq Require Import List ZArith NArith Bool.
-From DV Require Import C01.Syntax C01.Spec C01.Impl C01.Proofs C01.Types C01.FreeNames.
+From DV Require Import C01.Syntax C01.Spec C01.Impl C01.Proofs C01.Types C01.FreeNames C01.Fuel C01.FuelProofs.
 From DV Require C16.Model C16.Proofs.
 Import ListNotations.
 Open Scope Z_scope.
@@ -123,6 +123,54 @@ Example C01_free_names_nonvacuous :
   fst (run_impl 20 x_S x_e) = VList [vnum 3; vnum 5] /\ fst (run_impl 20 x_S' x_e) = VList [vnum 3; vnum 5].
 Proof. exact nonvacuous. Qed.
 
+(* ---------- fuel (coq/C01/Fuel.v, FuelProofs.v; audit problem 12) ----------
+   eval answers VPoison when the fuel runs out.  The marker is shared with "a number the model does not compute" and a VPoison
+   inside a list or a context is looked through by `=`, `if`, paths, filters, so "the value contains no VPoison" does NOT imply
+   that the fuel was enough: C01_value_monotonicity_refuted ([1] = [1] is false at fuel 2, true from fuel 3 on).
+   The statement "eval f S e = v, v not VPoison, f <= g -> eval g S e = v" is therefore FALSE; what is monotone is
+     complete cartf f S e = no evaluation step performed by eval cartf f S e took the out-of-fuel branch
+   (same recursion as eval; complete_step / eval_step are one layer of it: C01_eval_unfolds). *)
+Theorem C01_eval_unfolds : forall cartf f S e,
+  eval cartf (Datatypes.S f) S e = eval_step cartf (eval cartf f) S e /\
+  complete cartf (Datatypes.S f) S e = complete_step cartf (eval cartf f) (complete cartf f) S e /\
+  complete cartf O S e = false.
+Proof. exact (fun cartf f S e => conj (eval_S cartf f S e) (conj (complete_S cartf f S e) eq_refl)). Qed.
+(* once every step had fuel, the value is the same for every larger fuel: from there on the semantic value is fuel-independent *)
+Theorem C01_eval_fuel_monotone : forall cartf f g S e, (f <= g)%nat -> complete cartf f S e = true ->
+  eval cartf g S e = eval cartf f S e /\ complete cartf g S e = true.
+Proof. exact eval_fuel_monotone. Qed.
+Theorem C01_machine_fuel_monotone : forall cartf f g S e, (f <= g)%nat -> complete cartf f S e = true ->
+  run cartf g S e = run cartf f S e.
+Proof. exact run_fuel_monotone. Qed.
+Theorem C01_value_monotonicity_refuted :
+  let e := EBin Eq (EList [enum 1]) (EList [enum 1]) in
+  eval cart 2 [] e = VBool false /\ poison (eval cart 2 [] e) = false /\ eval cart 3 [] e = VBool true /\
+  complete cart 2 [] e = false /\ complete cart 3 [] e = true.
+Proof. exact value_monotonicity_refuted. Qed.
+(* expressions that evaluate no invocation (calls inside function literals do not count): any fuel above the nesting depth
+   is enough, for every enumeration, stack and expression *)
+Theorem C01_fuel_sufficient : forall cartf f S e, nocall e = true -> (depth e < f)%nat ->
+  eval cartf f S e = eval cartf (Datatypes.S (depth e)) S e /\ complete cartf f S e = true.
+Proof. exact fuel_sufficient. Qed.
+(* invocations: the fuel needed depends on the values (function bodies run in the caller's stack, so a function bound to a
+   name can call itself): no bound in the text of the expression exists.
+   vf = function(vn) vf(vn); vf(1): VPoison and incomplete for EVERY fuel (FEEL does not terminate there either; the real
+   evaluator exhausts its stack: C05's subject) *)
+Theorem C01_recursion_never_completes : forall cartf f,
+  eval cartf f r_S r_loop = VPoison /\ complete cartf f r_S r_loop = false.
+Proof. exact loop_diverges. Qed.
+(* vf = function(vn) if vn = 0 then 0 else vf(vn - 1): vf(3) completes from fuel 10 on, vf(4) from 12 on *)
+Theorem C01_recursion_countdown :
+  complete cart 9 r_S2 (ECall (EName r_f) [enum 3]) = false /\ complete cart 10 r_S2 (ECall (EName r_f) [enum 3]) = true /\
+  eval cart 10 r_S2 (ECall (EName r_f) [enum 3]) = vnum 0 /\
+  complete cart 10 r_S2 (ECall (EName r_f) [enum 4]) = false /\ complete cart 12 r_S2 (ECall (EName r_f) [enum 4]) = true.
+Proof. exact countdown_completes. Qed.
+Example C01_fuel_sufficient_nonvacuous :
+  nocall s_e = true /\ depth s_e = 5%nat /\ complete cart 6 [[(101%N, vnum 1)]] s_e = true /\ complete cart 5 [[(101%N, vnum 1)]] s_e = false /\
+  eval cart 6 [[(101%N, vnum 1)]] s_e = VList [vnum (-1); vnum (-2); vnum 4; vnum 7] /\
+  eval cart 40 [[(101%N, vnum 1)]] s_e = VList [vnum (-1); vnum (-2); vnum 4; vnum 7].
+Proof. exact sufficient_nonvacuous. Qed.
+
 Print Assumptions C01_machine_refines_semantics.
 Print Assumptions C01_impl_refines_spec.
 Print Assumptions C01_enumeration_is_product.
@@ -148,3 +196,11 @@ Print Assumptions C01_unrelated_bindings_irrelevant.
 Print Assumptions C01_dynamic_scope_witness.
 Print Assumptions C01_bound_name_leak_witness.
 Print Assumptions C01_free_names_nonvacuous.
+Print Assumptions C01_eval_unfolds.
+Print Assumptions C01_eval_fuel_monotone.
+Print Assumptions C01_machine_fuel_monotone.
+Print Assumptions C01_value_monotonicity_refuted.
+Print Assumptions C01_fuel_sufficient.
+Print Assumptions C01_recursion_never_completes.
+Print Assumptions C01_recursion_countdown.
+Print Assumptions C01_fuel_sufficient_nonvacuous.
